@@ -225,6 +225,8 @@ class RelativeSequence(AbstractSequence):
                     if len(current_sequence._messages) > 0:
                         split_sequences.append(current_sequence)
                         current_sequence = next_sequence
+                    # Carry over messages that were deferred to the next sequence
+                    working_memory[0:0] = next_sequence_queue
                     break
 
                 # Retrieve next message
